@@ -127,9 +127,10 @@ def routeCase : P String := do
   let first ← peek
   let cfg := first == "cfg"
   -- the vehicle: given directly (built in-process), or selected from a configured library by the query
-  let (kind, vres, caches, built) ← (do
+  let (kind, vres, caches, built, malformed) ← (do
     if cfg then
       let _ ← next
+      let malformed ← bool
       let lib : List (Nat × Kind × Vehicle Float × Caches Key Float) ←
         listOf (do let id ← nat; let v ← vehicleP; pure (id, v))
       let nm ← nameP
@@ -146,11 +147,11 @@ def routeCase : P String := do
       let (kind, caches) := match sel with
         | some (k, _, c) => (k, c)
         | none => (Kind.ice, ({ main := none, sustain := none } : Caches Key Float))
-      pure (kind, vres, caches, built)
+      pure (kind, vres, caches, built, malformed)
     else
       let (kind, v0, caches) ← vehicleP
       let q ← queryP
-      pure (kind, v0.updateFromQuery q, caches, ""))
+      pure (kind, v0.updateFromQuery q, caches, "", false))
   -- service
   let tmsu ← unitP SpeedUnit.ofName?
   let gt ← optOf (listOf float)
@@ -181,10 +182,11 @@ def routeCase : P String := do
   let hm ← if cfg then optOf float else (do let x ← float; pure (some x))
   let socOverride ← optOf float
   endOfLine
-  match engRes, vres with
-  | .error _, _ => pure "engine_rejected"
-  | .ok _, .error _ => pure (built ++ "rejected")
-  | .ok (eng, maxSpeed), .ok v =>
+  match configReadable malformed, engRes, vres with
+  | .error _, _, _ => pure "engine_rejected"
+  | .ok _, .error _, _ => pure "engine_rejected"
+  | .ok _, .ok _, .error _ => pure (built ++ "rejected")
+  | .ok _, .ok (eng, maxSpeed), .ok v =>
     let s0 := v.initialStateWith socOverride
     let noCache := caches.main.isNone && caches.sustain.isNone
     let rec go (es : List (Edge Float)) (st : VState Float × Caches Key Float) (acc : List String) :
